@@ -139,19 +139,4 @@ pub broadcast proof fn lemma_accounted_ext(m1: Map<u64, Bytes>, s1: Map<u64, Sli
 }
 }
 
-impl Slice {
-    /// what Packet::from_bytes guarantees about a decoded slice (nothing else may be assumed of a hostile peer)
-    pub open spec fn wire_valid(&self) -> bool {
-        1 <= self.num_slices <= max_slices()
-    }
-
-    /// the slice is one the peer's sender produces for submitted message `m`
-    pub open spec fn authentic(&self, m: Seq<u8>) -> bool {
-        &&& self.wire_valid()
-        &&& m.len() > 1200     // the sender slices only messages longer than one slice
-        &&& (self.num_slices - 1) * 1200 < m.len() <= self.num_slices * 1200
-        &&& self.slice_index < self.num_slices
-        &&& self.payload@ == SliceConstructor::slice_of(m, self.num_slices as int, self.slice_index as int)
-    }
-}
 // ---- end shared ReceiveChannelReliable specs ----
